@@ -89,7 +89,7 @@ func randomLexSource(rng *rand.Rand, pieces int) string {
 		var s strings.Builder
 		n := rng.Intn(6)
 		for i := 0; i < n; i++ {
-			s.WriteString([]string{"a", "b c", "\n", "ä", "€", "#", "*", "/", "  ", "\t", "{{x}}", "\r\n"}[rng.Intn(12)])
+			s.WriteString([]string{"a", "b c", "\n", "ä", "€", "#", "*", "/", "  ", "\t", "{{x}}", "\r\n", "\\", "\\\\", "\\n"}[rng.Intn(15)])
 		}
 		return s.String()
 	}
@@ -106,7 +106,7 @@ func randomLexSource(rng *rand.Rand, pieces int) string {
 			ws(false)
 		case 5:
 			q := []string{"\"", "'"}[rng.Intn(2)]
-			b.WriteString(q + strings.NewReplacer(q, "", "\\", "").Replace(inner()) + q)
+			b.WriteString(q + strings.NewReplacer(q, "").Replace(inner()) + q)
 			ws(true)
 		case 6:
 			q := []string{"\"", "'"}[rng.Intn(2)]
